@@ -1,3 +1,6 @@
+import json
+
+
 def _amt(list_, nodes, key):
     return sum(x.get(key, 0) for x in list_ if x.get("node") in nodes)
 
@@ -18,14 +21,27 @@ def sig(fl):
         else:
             kind = "other"
         return "op=dist mode=%s hint-from-0=%s kind=%s" % (e.get("mode"), from0, kind)
-    if op == "alloc":
-        r = e.get("result", {})
-        exp = fl.get("expected") or {}
-        kind = "result-not-allowed"
+    if op in ("alloc", "update", "release"):
+        # the specification's expectation for the event (computed by TLC in explain mode, first few rejections only):
+        # the obs-shaped ledger / pod maps a correct node reports, plus `rule` = what the result had to satisfy
+        exp = fl.get("expected")
+        kind = "unclassified"
         if fl.get("violated"):
             kind = "invariant-" + str(fl.get("violated"))
-        elif not r.get("ok") and isinstance(exp, dict) and exp.get("mustSucceed"):
-            kind = "refused-although-hinted-nodes-have-enough"
+        elif isinstance(exp, dict) and "refs" in exp:
+            obs = e.get("obs", {})
+            norm = lambda x: json.dumps(x if x != [] else {}, sort_keys=True)
+            differs = [k for k in ("pods", "refs", "stray", "numa") if norm(obs.get(k)) != norm(exp.get(k))]
+            rule = exp.get("rule")
+            if differs:
+                kind = "ledger-differs-from-live-pods(%s)" % ",".join(differs)
+            elif op == "alloc" and not e.get("result", {}).get("ok") and isinstance(rule, dict) and rule.get("mustSucceed"):
+                kind = "refused-although-hinted-nodes-have-enough"
+            elif op == "alloc":
+                kind = "result-not-allowed"
+        if op != "alloc":
+            return "op=%s kind=%s" % (op, kind)
+        r = e.get("result", {})
         return "op=alloc bind=%s hint=%s required=%s ok=%s kind=%s" % (e.get("bind"), e.get("hasHint"), e.get("required"), r.get("ok"), kind)
     if op == "take":
         return "op=take fn=%s policy=%s ok=%s" % (e.get("fn"), e.get("policy"), e.get("result", {}).get("ok"))
